@@ -308,6 +308,8 @@ theorem step_server (cfg : Cfg) (d : Def) (w : World) (e : Ev) :
     cases w.pending <;> simp
   | validate => left; simp [step]
   | clientVerifier up => left; simp [step]
+  | restartServer => left; simp [step]
+  | restartClient => left; simp [step]
   | dpollStart => left; simp [step]
   | dpollFinish i perm =>
     left
@@ -998,6 +1000,9 @@ theorem winv_step {K : VP → Prop} (hK : IdFun K) (cfg : Cfg) (hsf : cfg.servic
   | pollB perm => exact winv_pollB hK cfg hsf hrw d w perm he h
   | validate => exact winv_validate cfg d w h
   | clientVerifier up => exact winv_clientVerifier cfg d w up h
+  | restartServer => exact h
+  | restartClient =>
+    exact ⟨h.srv, h.sK, h.cli, h.cz, h.sLe, h.cLe, (by intro p hp; cases hp), h.sync⟩
   | dpollStart => exact he.elim
   | dpollFinish i perm => exact he.elim
 
@@ -1316,6 +1321,8 @@ theorem srchInv_step (cfg : Cfg) (hsf : cfg.serviceFirst = true) (hrw : cfg.rest
   | pollA => exact h.cv
   | validate => exact cv_validate h.cv
   | clientVerifier up => exact ⟨h.cv.rowsLt, h.cv.valLt, h.cv.inj, h.cv.ver⟩
+  | restartServer => exact h.cv
+  | restartClient => exact h.cv
   | dpollStart => exact he.elim
   | dpollFinish i perm => exact he.elim
   | pollB perm =>
